@@ -189,11 +189,13 @@ def apply_edits(item, edits, twin_false=False):
                 raise SpecError("replace edit needs kind= one of %s" % sorted(REPLACE_KINDS))
             item.replace(kind, e["a"], e["b"], int(at.get("count", "1")), at.get("why", ""))
         elif k == "lift-block":
-            item.lift_block(at["anchor"], int(at.get("nth", "1")), e["a"], at.get("why", ""))
+            item.lift_block(at["anchor"], int(at.get("nth", "1")), e["a"], at.get("why", ""), at.get("pre", ""), at.get("post", ""))
         elif k == "abstract-span":
-            item.abstract_span(at["anchor"], int(at.get("nth", "1")), at.get("tail", ""), e["a"], at.get("why", ""))
+            item.abstract_span(at["anchor"], int(at.get("nth", "1")), at.get("tail", ""), e["a"], at.get("why", ""), int(at.get("groups", "1")))
         elif k == "desugar-iter-chain":
             item.desugar_iter_chain(at["source"], int(at.get("nth", "1")), at["elem"], at.get("out", "__out"), at.get("call"))
+        elif k == "rename":
+            item.rename_ident(at["from"], at["to"], at.get("why", ""))
         elif k == "desugar-for":
             item.desugar_for(int(at["loop"]), at.get("it", "vit"))
         elif k == "sinks":
